@@ -87,6 +87,19 @@ func mkScalars(n int, salt uint64) string {
 	return sb.String()
 }
 
+// chunkString renders s as non-final 'R' chunks of c characters and a final 'S' chunk.
+func chunkString(s string, c int) []byte {
+	rs := []rune(s)
+	var out []byte
+	for len(rs) > c {
+		out = append(out, 'R', byte(c>>8), byte(c))
+		out = append(out, string(rs[:c])...)
+		rs = rs[c:]
+	}
+	out = append(out, 'S', byte(len(rs)>>8), byte(len(rs)))
+	return append(out, string(rs)...)
+}
+
 func mkBytes(n int, salt uint64) []byte {
 	b := make([]byte, n)
 	x := salt*0x9e3779b97f4a7c15 + 1
@@ -253,7 +266,8 @@ func TestC09(t *testing.T) {
 	r := rec.For("C09")
 	shard, nshards := shardInfo()
 	thorough := rec.Thorough()
-	if rc := replayCase(); rc != nil {
+	if rc := replayCase(); rc != nil && !strings.Contains(fmt.Sprint(rc["kind"]), "-") {
+		// (the decode-only and long-list phases are cheap and deterministic: their replay is the whole run)
 		kind, _ := rc["kind"].(string)
 		n, _ := caseInt(rc, "length")
 		cls, _ := caseInt(rc, "class")
@@ -357,6 +371,94 @@ func TestC09(t *testing.T) {
 		}
 	}
 	r.Label("string:all-scalar-values")
+	// ---- chunkings the Go encoder never produces but the grammar allows (a Java peer writes non-final chunks
+	// of 32768 characters): decode only, the string followed by another value inside a list
+	for _, cc := range [][2]int{{70000, 32768}, {70000, 32767}, {70000, 65535}, {140000, 65535}, {33000, 32999}, {5000, 1}, {40, 7}} {
+		for cls := 0; cls <= 4; cls += 2 {
+			if !mine() {
+				continue
+			}
+			s := mkString(cls, cc[0], 0, 0, uint64(cc[0]+cc[1]))
+			in := []byte{0x58, 0x92}
+			in = append(in, chunkString(s, cc[1])...)
+			in = append(in, 0x04, 't', 'a', 'i', 'l')
+			var out interface{}
+			var err error
+			pv, st := guard(func() { out, err = hessian.ToObject(in, nil) })
+			l, _ := out.([]interface{})
+			if pv != nil || err != nil || len(l) != 2 || l[0] != interface{}(s) || l[1] != interface{}("tail") {
+				got := ""
+				if len(l) > 0 {
+					got, _ = l[0].(string)
+				}
+				directFail(t, "C09", map[string]interface{}{"kind": "foreign-chunks", "class": fmt.Sprint(cls), "length": fmt.Sprint(cc[0]), "chunk": fmt.Sprint(cc[1])},
+					"C09 string of %d characters (class %d) sent in chunks of %d characters: err=%v panic=%v [%s], %d elements, first difference at octet %d", cc[0], cls, cc[1], err, pv, st, len(l), firstDiff(s, got))
+			}
+			r.EvalN(1)
+			nt++
+		}
+	}
+	for _, cc := range [][2]int{{70000, 32768}, {70000, 65535}, {40000, 39999}, {5000, 1}} {
+		if !mine() {
+			continue
+		}
+		for _, tag := range []byte{'A', 'b'} {
+			p := mkBytes(cc[0], uint64(cc[1]))
+			in := []byte{0x58, 0x92}
+			for off := 0; ; {
+				n := len(p) - off
+				if n > cc[1] {
+					in = append(in, tag, byte(cc[1]>>8), byte(cc[1]))
+					in = append(in, p[off:off+cc[1]]...)
+					off += cc[1]
+					continue
+				}
+				in = append(in, 'B', byte(n>>8), byte(n))
+				in = append(in, p[off:]...)
+				break
+			}
+			in = append(in, 0x91)
+			var out interface{}
+			var err error
+			pv, st := guard(func() { out, err = hessian.ToObject(in, nil) })
+			l, _ := out.([]interface{})
+			var got []byte
+			if len(l) > 0 {
+				got, _ = l[0].([]byte)
+			}
+			if pv != nil || err != nil || len(l) != 2 || !bytes.Equal(got, p) || l[1] != interface{}(int32(1)) {
+				directFail(t, "C09", map[string]interface{}{"kind": "foreign-binary-chunks", "length": fmt.Sprint(cc[0]), "chunk": fmt.Sprint(cc[1]), "tag": string(tag)},
+					"C09 binary of %d octets sent in '%c' chunks of %d octets: err=%v panic=%v [%s], %d elements, %d octets back", cc[0], tag, cc[1], err, pv, st, len(l), len(got))
+			}
+			r.EvalN(1)
+			nt++
+		}
+	}
+	r.Label("foreign chunk sizes up to 65535")
+	// ---- typed lists longer than the decoder's pre-allocation bound with empty strings in between
+	for _, ln := range []int{64, 65, 66, 100, 300, 1025} {
+		if !mine() {
+			continue
+		}
+		l := make([]string, ln)
+		for j := range l {
+			switch j % 4 {
+			case 0:
+				l[j] = mkString(j%5, 1+j%9, 0, 0, uint64(j))
+			case 2:
+				l[j] = "x"
+			}
+		}
+		l[ln-1] = ""
+		for _, v := range []interface{}{l, &zoo.StrCarrier{S: "s", L: l}} {
+			if stage, rerr, _ := roundTrip(v); rerr != nil {
+				directFail(t, "C09", map[string]interface{}{"kind": "long-list-with-empty-strings", "length": fmt.Sprint(ln)}, "C09 []string of %d elements, every second one empty: %s: %v", ln, stage, rerr)
+			}
+			r.EvalN(int64(ln))
+			nt++
+		}
+	}
+	r.Label("typed string lists to 1025 elements with empty strings")
 	// ---- binaries: every length
 	for _, n := range c09Lengths(binChunk, thorough) {
 		if !mine() {
